@@ -359,8 +359,14 @@ def warning_regions(ctx):
     spec = [n for n in walk_func(ct) if isinstance(n, ast.Assign) and isinstance(n.targets[0], ast.Attribute) and n.targets[0].attr in ("__spec__", "__loader__") and src(n.targets[0].value) in modv]
     ctx.check(len(spec) == 2 and all(s.lineno < ex[0].lineno for s in spec), "compile_text.loader-before-exec", db.where(ex[0]), "in-memory module gets no loader/spec before it is executed", "loader and spec set before exec")
     cf = db.func("template.Template._compile_from_file")
-    loads = calls(cf, "compat.load_module")
-    regs = calls(cf, "_compile_module_file")
+    cf_group = db.with_helpers(cf)
+    loads = [c_ for g_ in cf_group for c_ in calls(g_, "compat.load_module")]
+    regs = [c_ for g_ in cf_group for c_ in calls(g_, "_compile_module_file")]
+    ctx.require(loads and regs, "_compile_from_file: load / regenerate sites not found (anchor)")
+    # regenerating a module file compiles the template: its warnings are to be shown against the template as well
+    for r in regs:
+        ctx.check(inside_with(r, "_translate_module_warnings") is not None, "from_file.regenerate-in-region:%d" % regs.index(r), db.where(r),
+                  "a module file is regenerated outside _translate_module_warnings: warnings raised while that module is compiled are shown against the generated .py file and line", "inside the translation region")
     for l in loads:
         w = inside_with(l, "_translate_module_warnings")
         ctx.check(w is not None, "from_file.load-in-region:%d" % loads.index(l), db.where(l), "load_module is outside the translation region", "inside the translation region")
